@@ -64,14 +64,15 @@ theorem pop_of_back {T reach acc} (h : WF T reach acc) :
         es.map (fun e => e.tree.root) = xs.reverse ∧ (∀ e, e ∈ es → Tree.Valid T e.tree) ∧
         PathOK T reach rest ∧ AllValid T rest ∧
         T.goto (topState rest) lhs = some t ∧ T.nTerms ≤ lhs ∧
-        forestYield stk = forestYield rest ++ Tree.yields (es.map (·.tree)) := by
+        forestYield stk = forestYield rest ++ Tree.yields (es.map (·.tree)) ∧
+        (∀ e, e ∈ es → e ∈ stk) ∧ (∀ e, e ∈ rest → e ∈ stk) := by
   intro xs
   induction xs with
   | nil =>
     intro stk lhs hp hv hb
     cases hb with
     | base s lhs t he hl =>
-      refine ⟨[], stk, t, rfl, rfl, by simp, hp, hv, ?_, hl, by simp [Tree.yields]⟩
+      refine ⟨[], stk, t, rfl, rfl, by simp, hp, hv, ?_, hl, by simp [Tree.yields], by simp, fun _ h => h⟩
       have : ¬ lhs < T.nTerms := Nat.not_lt.mpr hl
       simpa [Tables.edge, this] using he
   | cons x xs ih =>
@@ -88,9 +89,9 @@ theorem pop_of_back {T reach acc} (h : WF T reach acc) :
           have := (h.closed _ _ _ (reach_top h hprest) hedge).2.1
           rw [← this]; exact hacc
         have hb' := hall (topState rest) (reach_top h hprest) (by rw [← hroot]; exact hedge)
-        obtain ⟨es, rest', t', hpop, hroots, hvl, hp', hv', hg, hl, hy⟩ :=
+        obtain ⟨es, rest', t', hpop, hroots, hvl, hp', hv', hg, hl, hy, hmes, hmrest⟩ :=
           ih rest lhs hprest hvrest hb'
-        refine ⟨es ++ [top], rest', t', ?_, ?_, ?_, hp', hv', hg, hl, ?_⟩
+        refine ⟨es ++ [top], rest', t', ?_, ?_, ?_, hp', hv', hg, hl, ?_, ?_, ?_⟩
         · simp [popN, hpop]
         · simp [hroots, hroot]
         · intro k hk
@@ -98,22 +99,52 @@ theorem pop_of_back {T reach acc} (h : WF T reach acc) :
           · exact hvl k hk
           · simp at hk; subst hk; exact hvt
         · simp [forestYield, hy, Tree.yields_append, Tree.yields, List.append_assoc]
+        · intro e he
+          rcases List.mem_append.mp he with he | he
+          · exact List.mem_cons_of_mem _ (hmes e he)
+          · simp at he; subst he; exact List.mem_cons_self
+        · intro e he; exact List.mem_cons_of_mem _ (hmrest e he)
+
+/-- pointwise relation between two lists of equal length -/
+inductive Forall2 {α β : Type} (R : α → β → Prop) : List α → List β → Prop
+  | nil : Forall2 R [] []
+  | cons {a b l₁ l₂} : R a b → Forall2 R l₁ l₂ → Forall2 R (a :: l₁) (b :: l₂)
+
+theorem forall2_of_entries {VI : Nat → V → Prop} :
+    ∀ (es : List (Entry V)) (rhs : List Nat), es.map (fun e => e.tree.root) = rhs →
+      (∀ e, e ∈ es → VI e.tree.root e.val) → Forall2 VI rhs (es.map (·.val)) := by
+  intro es
+  induction es with
+  | nil => intro rhs h _; simp at h; subst h; exact .nil
+  | cons e es ih =>
+    intro rhs h hv
+    cases rhs with
+    | nil => simp at h
+    | cons x xs =>
+      simp only [List.map_cons, List.cons.injEq] at h
+      refine .cons ?_ (ih xs h.2 (fun e' he' => hv e' (List.mem_cons_of_mem _ he')))
+      rw [← h.1]; exact hv e List.mem_cons_self
 
 /-- invariant of the engine configuration -/
-def Inv (T : Tables) (reach : Nat → Prop) (c : Cfg V) : Prop :=
-  PathOK T reach c.stack ∧ AllValid T c.stack ∧
-  (∃ pre, c.consumed = pre ++ forestYield c.stack ∧ pre.all (· == T.nlTok))
+def Inv (T : Tables) (reach : Nat → Prop) (VI : Nat → V → Prop) (c : Cfg V) : Prop :=
+  (PathOK T reach c.stack ∧ AllValid T c.stack ∧
+   (∃ pre, c.consumed = pre ++ forestYield c.stack ∧ pre.all (· == T.nlTok))) ∧
+  (∀ e, e ∈ c.stack → VI e.tree.root e.val) ∧ (∀ la, c.la = some la → VI la.1 la.2)
 
 /-- what a normal return of the engine guarantees -/
-def Good (T : Tables) : Res V → Prop
-  | .accepted _ tr c _ => Tree.Valid T tr ∧ ∃ pre front, c = pre ++ front ++ tr.yield ∧
-        pre.all (· == T.nlTok)
+def Good (T : Tables) (VI : Nat → V → Prop) : Res V → Prop
+  | .accepted v tr c _ => (Tree.Valid T tr ∧ ∃ pre front, c = pre ++ front ++ tr.yield ∧
+        pre.all (· == T.nlTok)) ∧ VI tr.root v
   | .blank _ c => c.all (· == T.nlTok)
 
 /-- the hooks raise only exceptions satisfying `E` -/
-structure HooksRaise (H : Hooks V) (E : Exn → Prop) : Prop where
-  next : M.Sat H.next (fun _ => True) E
-  act : ∀ p args, M.Sat (H.act p args) (fun _ => True) E
+structure HooksRaise (T : Tables) (H : Hooks V) (VI : Nat → V → Prop) (E : Exn → Prop) : Prop where
+  /-- tokens delivered satisfy the invariant of their terminal -/
+  next : M.Sat H.next (fun la => VI la.1 la.2) E
+  /-- a semantic action applied to right-hand-side values satisfying their invariants returns a
+      value satisfying the invariant of the left-hand side -/
+  act : ∀ p lhs rhs args, T.prods[p]? = some (lhs, rhs) → Forall2 VI rhs args →
+      M.Sat (H.act p args) (fun r => VI lhs r.1) E
   onError : ∀ la, M.Sat (H.onError la) (fun _ => True) E
 
 /-- exceptions the engine itself may add: running out of fuel, and the unmodelled error
@@ -122,51 +153,59 @@ structure HooksRaise (H : Hooks V) (E : Exn → Prop) : Prop where
 def EngineExn (E : Exn → Prop) (x : Exn) : Prop :=
   E x ∨ x = .outOfFuel "LRParser.parse" ∨ x = .foreign "NotModelled" "LRParser.parse(error recovery)"
 
-theorem doReduce_sat {T reach acc} (h : WF T reach acc) (H : Hooks V) {E} (hH : HooksRaise H E)
-    (c : Cfg V) (p : Nat)
-    (hinv : Inv T reach c)
+theorem doReduce_sat {T reach acc} (h : WF T reach acc) (H : Hooks V) {VI E}
+    (hH : HooksRaise T H VI E) (c : Cfg V) (p : Nat)
+    (hinv : Inv T reach VI c)
     (hb : ∃ lhs rhs, T.prods[p]? = some (lhs, rhs) ∧
           BackOK T reach acc (topState c.stack) rhs.reverse lhs) :
     M.Sat (doReduce T H c p)
-      (Sum.elim (Inv T reach) (Good T)) (EngineExn E) := by
-  obtain ⟨hp, hv, ⟨pre, hc, hpre⟩⟩ := hinv
+      (Sum.elim (Inv T reach VI) (Good T VI)) (EngineExn E) := by
+  obtain ⟨⟨hp, hv, ⟨pre, hc, hpre⟩⟩, hvi, hvila⟩ := hinv
   obtain ⟨lhs, rhs, hprod, hback⟩ := hb
-  obtain ⟨es, rest, t, hpop, hroots, hvl, hp', hv', hg, hl, hy⟩ :=
+  obtain ⟨es, rest, t, hpop, hroots, hvl, hp', hv', hg, hl, hy, hmes, hmrest⟩ :=
     pop_of_back h rhs.reverse c.stack lhs hp hv hback
   simp only [List.length_reverse] at hpop
+  have hroots' : es.map (fun e => e.tree.root) = rhs := by simpa using hroots
   have hvalid : Tree.Valid T (Tree.node p lhs (es.map (·.tree))) := by
     refine .node p lhs _ rhs hprod ?_ ?_
     · simpa [List.map_map, Function.comp_def] using hroots
     · intro k hk
       obtain ⟨e, he, rfl⟩ := List.mem_map.mp hk
       exact hvl e he
+  have hargs : Forall2 VI rhs (es.map (·.val)) :=
+    forall2_of_entries es rhs hroots' (fun e he => hvi e (hmes e he))
   have hnt : ¬ lhs < T.nTerms := Nat.not_lt.mpr hl
   unfold doReduce
   simp only [hprod, hpop]
-  refine M.Sat.bind ((hH.act _ _).weaken (fun _ h => h) (fun _ h => Or.inl h)) ?_
-  rintro ⟨v, accept⟩ _
+  refine M.Sat.bind ((hH.act p lhs rhs _ hprod hargs).weaken (fun _ h => h) (fun _ h => Or.inl h)) ?_
+  rintro ⟨v, accept⟩ hvlhs
+  simp only at hvlhs
   simp only [hg]
   by_cases hacc : accept = true
   · simp only [hacc, if_true]
-    refine M.Sat.pure (P := Sum.elim (Inv T reach) (Good T)) ?_
-    simp only [Sum.elim_inl, Sum.elim_inr]
-    refine ⟨hvalid, pre, forestYield rest, ?_, hpre⟩
+    refine M.Sat.pure (P := Sum.elim (Inv T reach VI) (Good T VI)) ?_
+    simp only [Sum.elim_inr]
+    refine ⟨⟨hvalid, pre, forestYield rest, ?_, hpre⟩, hvlhs⟩
     simp [hc, hy, Tree.yield, List.append_assoc]
   · simp only [hacc]
-    refine M.Sat.pure (P := Sum.elim (Inv T reach) (Good T)) ?_
-    simp only [Sum.elim_inl, Sum.elim_inr]
-    refine ⟨⟨?_, ?_, hp'⟩, ⟨hvalid, hv'⟩, ⟨pre, ?_, hpre⟩⟩
+    refine M.Sat.pure (P := Sum.elim (Inv T reach VI) (Good T VI)) ?_
+    simp only [Sum.elim_inl]
+    refine ⟨⟨⟨?_, ?_, hp'⟩, ⟨hvalid, hv'⟩, ⟨pre, ?_, hpre⟩⟩, ?_, hvila⟩
     · have hedge : T.edge (topState rest) lhs = some t := by simp [Tables.edge, hnt, hg]
       exact (h.closed _ _ _ (reach_top h hp') hedge).1
     · simp [Tree.root, Tables.edge, hnt, hg]
     · simp [forestYield, Tree.yield, hc, hy, List.append_assoc]
+    · intro e he
+      rcases List.mem_cons.mp he with he | he
+      · subst he; exact hvlhs
+      · exact hvi e (hmrest e he)
 
 theorem step_sat {T reach acc} (h : WF T reach acc)
-    (H : Hooks V) {E} (hH : HooksRaise H E) (c : Cfg V) (hinv : Inv T reach c) :
+    (H : Hooks V) {VI E} (hH : HooksRaise T H VI E) (c : Cfg V) (hinv : Inv T reach VI c) :
     M.Sat (step T H c)
-      (Sum.elim (Inv T reach) (Good T)) (EngineExn E) := by
+      (Sum.elim (Inv T reach VI) (Good T VI)) (EngineExn E) := by
   have hinv' := hinv
-  obtain ⟨hp, hv, ⟨pre, hc, hpre⟩⟩ := hinv
+  obtain ⟨⟨hp, hv, ⟨pre, hc, hpre⟩⟩, hvi, hvila⟩ := hinv
   have hr := reach_top h hp
   unfold step
   simp only
@@ -174,20 +213,22 @@ theorem step_sat {T reach acc} (h : WF T reach acc)
   | some p => exact doReduce_sat h H hH c p hinv' (h.redDflt _ p hr hd)
   | none =>
     simp only
-    refine M.Sat.bind (P := fun _ => True) ?_ ?_
-    · cases c.la with
-      | some la => exact M.Sat.pure True.intro
+    refine M.Sat.bind (P := fun la => VI la.1 la.2) ?_ ?_
+    · cases hla : c.la with
+      | some la => exact M.Sat.pure (hvila la hla)
       | none => exact hH.next.weaken (fun _ h => h) (fun _ h => Or.inl h)
-    rintro ⟨la, lv⟩ _
+    rintro ⟨la, lv⟩ hvla
+    simp only at hvla
     simp only
     -- the configuration with the look-ahead stored satisfies the invariant too
-    have hinvla : Inv T reach { c with la := some (la, lv) } :=
-      ⟨hp, hv, ⟨pre, by simpa using hc, hpre⟩⟩
+    have hinvla : Inv T reach VI { c with la := some (la, lv) } :=
+      ⟨⟨hp, hv, ⟨pre, by simpa using hc, hpre⟩⟩, hvi, by
+        intro la' hla'; simp only [Option.some.injEq] at hla'; subst hla'; exact hvla⟩
     split
     · -- all-newline return
       rename_i hblank
-      refine M.Sat.pure (P := Sum.elim (Inv T reach) (Good T)) ?_
-      simp only [Sum.elim_inl, Sum.elim_inr]
+      refine M.Sat.pure (P := Sum.elim (Inv T reach VI) (Good T VI)) ?_
+      simp only [Sum.elim_inr]
       simp only [Bool.and_eq_true, beq_iff_eq] at hblank
       obtain ⟨⟨hs0, _⟩, _⟩ := hblank
       have hnil : c.stack = [] := by
@@ -213,8 +254,8 @@ theorem step_sat {T reach acc} (h : WF T reach acc)
           simp only
           split
           · rename_i hnlc
-            refine M.Sat.pure (P := Sum.elim (Inv T reach) (Good T)) ?_
-            simp only [Sum.elim_inl, Sum.elim_inr]
+            refine M.Sat.pure (P := Sum.elim (Inv T reach VI) (Good T VI)) ?_
+            simp only [Sum.elim_inl]
             simp only [Bool.and_eq_true, beq_iff_eq] at hnlc
             obtain ⟨hs0, hlanl⟩ := hnlc
             have hnil : c.stack = [] := by
@@ -223,20 +264,24 @@ theorem step_sat {T reach acc} (h : WF T reach acc)
               | cons top rest =>
                 rw [hstk] at hp hs0
                 exact absurd hs0 (h.closed _ _ _ (reach_top h hp.2.2) hp.2.1).2.2
-            refine ⟨hp, hv, ⟨c.consumed ++ [la], ?_, ?_⟩⟩
+            refine ⟨⟨hp, hv, ⟨c.consumed ++ [la], ?_, ?_⟩⟩, hvi, by intro la' hla'; cases hla'⟩
             · simp [hnil, forestYield]
             · rw [hnil] at hc
               simp only [forestYield, List.append_nil] at hc
               rw [hc]
               simp [List.all_append, hpre, hlanl]
-          · refine M.Sat.pure (P := Sum.elim (Inv T reach) (Good T)) ?_
-            simp only [Sum.elim_inl, Sum.elim_inr]
-            refine ⟨⟨?_, ?_, hp⟩, ⟨.leaf _ hla, hv⟩, ⟨pre, ?_, hpre⟩⟩
+          · refine M.Sat.pure (P := Sum.elim (Inv T reach VI) (Good T VI)) ?_
+            simp only [Sum.elim_inl]
+            refine ⟨⟨⟨?_, ?_, hp⟩, ⟨.leaf _ hla, hv⟩, ⟨pre, ?_, hpre⟩⟩, ?_, by intro la' hla'; cases hla'⟩
             · have hedge : T.edge (topState c.stack) la = some t := by
                 simp [Tables.edge, hla, hact]
               exact (h.closed _ _ _ hr hedge).1
             · simp [Tree.root, Tables.edge, hla, hact]
             · simp [forestYield, Tree.yield, hc, List.append_assoc]
+            · intro e he
+              rcases List.mem_cons.mp he with he | he
+              · subst he; exact hvla
+              · exact hvi e he
         | reduce p =>
           exact doReduce_sat h H hH _ p hinvla (h.redAct _ _ p hr hact)
         | accept =>
@@ -244,10 +289,11 @@ theorem step_sat {T reach acc} (h : WF T reach acc)
           split
           · rename_i top rest hstk
             have hstk' : c.stack = top :: rest := hstk
-            refine M.Sat.pure (P := Sum.elim (Inv T reach) (Good T)) ?_
+            refine M.Sat.pure (P := Sum.elim (Inv T reach VI) (Good T VI)) ?_
             simp only [Sum.elim_inr]
+            have hvtop := hvi top (by rw [hstk']; exact List.mem_cons_self)
             rw [hstk'] at hv hc
-            refine ⟨hv.1, pre, forestYield rest, ?_, hpre⟩
+            refine ⟨⟨hv.1, pre, forestYield rest, ?_, hpre⟩, hvtop⟩
             simp [hc, forestYield, List.append_assoc]
           · rename_i hstk
             have hstk' : c.stack = [] := hstk
@@ -256,13 +302,18 @@ theorem step_sat {T reach acc} (h : WF T reach acc)
 
 /-- **lr_sound** and **lr_safe**, for every token source and every family of semantic actions:
     a normal return of the engine is `Good` (the returned derivation tree is valid for the
-    declared grammar and its yield is a suffix of the consumed terminals after the leading
-    NEWLINEs), and the only exceptions are those of the hooks, running out of fuel, or the
-    unmodelled error recovery — never an internal KeyError/IndexError of the engine. -/
-theorem run_sound {T reach acc} (h : WF T reach acc) (H : Hooks V) {E} (hH : HooksRaise H E)
-    (fuel : Nat) : M.Sat (run T H fuel) (Good T) (EngineExn E) := by
+    declared grammar, its yield is a suffix of the consumed terminals after the leading
+    NEWLINEs, and the returned value satisfies the value invariant of the tree's root symbol
+    whenever tokens and actions respect the invariant), and the only exceptions are those of
+    the hooks, running out of fuel, or the unmodelled error recovery — never an internal
+    KeyError/IndexError of the engine. -/
+theorem run_sound {T reach acc} (h : WF T reach acc) (H : Hooks V) {VI E}
+    (hH : HooksRaise T H VI E) (fuel : Nat) :
+    M.Sat (run T H fuel) (Good T VI) (EngineExn E) := by
   unfold run
-  refine M.Sat.loop (I := Inv T reach) (Or.inr (Or.inl rfl)) (fun s hs => step_sat h H hH s hs) fuel {} ?_
-  exact ⟨True.intro, True.intro, ⟨[], by simp [forestYield], by simp⟩⟩
+  refine M.Sat.loop (I := Inv T reach VI) (Or.inr (Or.inl rfl)) (fun s hs => step_sat h H hH s hs) fuel {} ?_
+  refine ⟨⟨True.intro, True.intro, ⟨[], by simp [forestYield], by simp⟩⟩, ?_, ?_⟩
+  · intro e he; cases he
+  · intro la hla; cases hla
 
 end Bashlex.LR
